@@ -114,7 +114,9 @@ func init() {
 		short := not(eq(n, p.L[2]))
 		vc.assume(c, imp(and(short, or(cleanEnd, eq(L, F))), ite(eq(n, bvLit(64, 0)), ite(app("bvsle", L, F), or(isEOF, not(isEOF)), "true"), "true")))
 		vc.assume(c, imp(and(short, cleanEnd), and(eq(isEOF, eq(n, bvLit(64, 0))), eq(isUEOF, not(eq(n, bvLit(64, 0)))))))
-		vc.assume(c, imp(and(short, not(cleanEnd)), and(not(isEOF), not(isUEOF))))
+		// a reader fault is any error but io.EOF (a fault that says io.EOF is a cut); in particular it may be
+		// io.ErrUnexpectedEOF
+		vc.assume(c, imp(and(short, not(cleanEnd)), not(isEOF)))
 		vc.assume(c, imp(isNil, and(not(isEOF), not(isUEOF))))
 		vc.readerErrNotSentinel(st, err)
 		hn := elemHeapName(elemKey(types.Typ[types.Uint8]), "")
@@ -154,7 +156,8 @@ func init() {
 		c := st.cond
 		vc.assume(c, and(app("bvsle", bvLit(64, 0), pos), app("bvsle", pos, lim), app("bvslt", lim, bvLit(64, 1<<50))))
 		vc.assume(c, eq(isNil, app("bvslt", pos, lim)))
-		vc.assume(c, imp(not(isNil), and(eq(isEOF, app("bvslt", L, F)), not(isUEOF))))
+		// one byte: io.EOF exactly at a clean end; a fault is any other error (possibly io.ErrUnexpectedEOF)
+		vc.assume(c, imp(not(isNil), and(eq(isEOF, app("bvslt", L, F)), imp(isUEOF, not(app("bvslt", L, F))))))
 		vc.assume(c, imp(isNil, and(not(isEOF), not(isUEOF))))
 		vc.readerErrNotSentinel(st, err)
 		// store the byte on success (on failure the pointee is unchanged)
